@@ -14,6 +14,7 @@ import (
 	"encoding/hex"
 	"encoding/json"
 	"fmt"
+	"math/rand"
 	"os"
 	"sort"
 	"strings"
@@ -56,17 +57,40 @@ type shared struct {
 }
 
 type world struct {
-	r         *ev.Run
-	sh        *shared
-	source    string
-	srv       *fixture.ChildServer
-	conns     map[string]*sess.Conn // the model's sessions: s1 and the watcher w
-	rend      *sess.Renderer
-	seed      int64
-	log       []string
-	acts      []sess.Act
-	start     string
-	sinceSpin int
+	r      *ev.Run
+	sh     *shared
+	source string
+	srv    *fixture.ChildServer
+	conns  map[string]*sess.Conn // the model's sessions: s1 and the watcher w
+	rend   *sess.Renderer
+	seed   int64
+	log    []string
+	acts   []sess.Act
+	start  string
+
+	heavy    []int
+	curB     *sess.Behaviour // the sequence being replayed and the index of the current step
+	curK     int
+	suspects []suspect // sequences whose connection was closed since the server was last seen idle
+	isolated bool      // this world re-runs one suspect alone: no CPU checks inside the steps
+}
+
+// suspect: a replayed prefix of a sequence, after which the client closed the connection.
+type suspect struct {
+	b    *sess.Behaviour
+	upto int
+	seed int64
+}
+
+func (s suspect) last() *sess.Act { return &s.b.Trace[s.upto] }
+
+func (s suspect) sig() string {
+	l := s.last()
+	ph := l.Was
+	if l.InIdle {
+		ph += "+idle"
+	}
+	return ph + "/" + l.X
 }
 
 func newWorld(r *ev.Run, sh *shared, source string, seed int64) (*world, error) {
@@ -253,12 +277,6 @@ func (w *world) step(a *sess.Act) (bool, error) {
 	w.sh.mu.Unlock()
 	w.r.Eval(a.X+":"+hashLine(line), malformed)
 
-	if line.EOF && w.quickSpin() {
-		// the server is busy before the stream is cut: whatever is found afterwards would not be this line's doing
-		if !w.spinCheck("eof/unattributed", "an earlier line of this server (found before "+clip(line.Text, 60)+" was sent)") {
-			return false, nil
-		}
-	}
 	rss0 := w.srv.RSSKiB()
 	mon := sess.StartMonitor(w.srv.RSSKiB)
 	o, kind, waited := w.await(c, line, sig)
@@ -277,7 +295,10 @@ func (w *world) step(a *sess.Act) (bool, error) {
 	w.sh.mu.Unlock()
 	where := fmt.Sprintf("%s (%d bytes) in phase %s", line.Text, line.Size, phase)
 
-	// the process
+	// the process (a dying process may still be writing its goroutine dump)
+	if o.Status == "" && o.Closed {
+		w.srv.WaitExit(5 * time.Second)
+	}
 	if w.crashed(where) {
 		return false, nil
 	}
@@ -353,7 +374,7 @@ func (w *world) step(a *sess.Act) (bool, error) {
 	if !insync {
 		// the harness gives this connection up: for the server a client that vanished, maybe in the middle of a line
 		c.Close()
-		if w.quickSpin() && !w.spinCheck(sig, where+" (left unanswered)") {
+		if !w.idleAfterClose(sig) {
 			return false, nil
 		}
 	}
@@ -438,68 +459,166 @@ func (w *world) afterDisconnect(sig, where string) (bool, error) {
 	if o.Status != "OK" {
 		w.violate(kindKey(sig, "no-new-connections"), fmt.Sprintf("after %s and a disconnect, NOOP on a new connection: %s", where, o.Brief()))
 	}
+	return w.idleAfterClose(sig), nil
+}
+
+// idleAfterClose: a connection of the current sequence was just closed by the client. It reports whether the
+// server can be used further (false: it was found spinning - or is known to spin after this - and has been replaced).
+func (w *world) idleAfterClose(sig string) bool {
+	if w.isolated || w.srv == nil {
+		return true
+	}
 	w.sh.mu.Lock()
+	known := w.sh.silent[sig+"/spin"] != ""
 	n := w.sh.spinDone[sig]
 	w.sh.spinDone[sig]++
 	w.sh.mu.Unlock()
-	w.sinceSpin++
-	if w.quickSpin() {
-		return w.spinCheck(sig, where), nil
+	if known {
+		// reported for this signature already: do not measure again, only get a clean server
+		w.restart()
+		return false
 	}
-	if n < 1 {
-		// the first time for this signature: the long look even though the quick one saw nothing
-		return w.spinCheck(sig, where), nil
+	// the first time for a signature: the long look, even though the quick one may see nothing yet
+	if (n < 1 || w.quickSpin()) && w.spinning() {
+		var cur *suspect
+		if w.curB != nil {
+			cur = &suspect{b: w.curB, upto: w.curK, seed: w.seed}
+		}
+		w.spinDetected(cur, sig)
+		return false
 	}
-	return true, nil
+	return true
 }
 
 // quickSpin is a cheap look (a quarter of a second) whether the server is burning CPU right now; it only
 // decides whether the full check is worth its time.
 func (w *world) quickSpin() bool {
 	pid := w.srv.Pid()
+	// a goroutine that spins keeps a thread runnable all the time; an idle server has none most of the time
+	for i := 0; i < 4; i++ {
+		if !sess.Runnable(pid) {
+			return false
+		}
+		time.Sleep(3 * time.Millisecond)
+	}
 	c0 := sess.CPUTicks(pid)
 	time.Sleep(250 * time.Millisecond)
 	c1 := sess.CPUTicks(pid)
 	return c0 >= 0 && c1-c0 >= 3
 }
 
-// spinCheck returns false (after restarting the server) when the server keeps burning CPU with no client talking.
-func (w *world) spinCheck(sig, where string) bool {
+// spinning measures: does the server keep using CPU time (three consecutive seconds) while no client of the
+// checked connection is there any more?
+func (w *world) spinning() bool {
 	pid := w.srv.Pid()
-	w.sh.mu.Lock()
-	known := w.sh.silent[sig+"/spin"] != ""
-	w.sh.mu.Unlock()
-	if known {
-		// reported already for this signature and the quick look says it is busy again: only get a clean server
-		w.restart()
-		return false
-	}
 	w.sh.mu.Lock()
 	w.sh.spinFull++
 	w.sh.mu.Unlock()
-	w.sinceSpin = 0
 	time.Sleep(300 * time.Millisecond)
-	rss0 := w.srv.RSSKiB()
-	var c0, c1 int64
+	busy, _ := busyFor3s(pid)
+	return busy
+}
+
+// busyFor3s: CPU time used in three seconds; busy = at least spinTicks per second on average (an idle server uses
+// next to nothing; a server that used less than 3 ticks in the first second is not looked at any longer).
+func busyFor3s(pid int) (bool, int64) {
+	c0 := sess.CPUTicks(pid)
 	for i := 0; i < 3; i++ {
-		c0 = sess.CPUTicks(pid)
 		time.Sleep(time.Second)
-		c1 = sess.CPUTicks(pid)
-		if c1 < 0 {
-			return !w.crashed(where)
+		c1 := sess.CPUTicks(pid)
+		if c1 < 0 || c0 < 0 {
+			return false, 0
 		}
-		if c1-c0 < spinTicks {
-			return true
+		if i == 0 && c1-c0 < 3 {
+			return false, c1 - c0
+		}
+		if i == 2 {
+			return c1-c0 >= 3*spinTicks, (c1 - c0) / 3
 		}
 	}
-	rss1 := w.srv.RSSKiB()
-	w.sh.mu.Lock()
-	w.sh.silent[sig+"/spin"] = "spin"
-	w.sh.mu.Unlock()
-	w.violate(kindKey(sig, "spin-after-disconnect"), fmt.Sprintf("%s, then the client closed the connection: 3 s later the server still uses %d%% of a core with no client talking to it, resident set %d -> %d MiB in those 3 s",
-		where, c1-c0, rss0/1024, rss1/1024))
+	return false, 0
+}
+
+// spinDetected: the server was measured spinning. Whose doing it is, is decided by running the candidates (the
+// current sequence, then the ones closed before it) one by one on a server of their own.
+func (w *world) spinDetected(cur *suspect, curSig string) {
+	rss := w.srv.RSSKiB()
+	cands := []suspect{}
+	if cur != nil {
+		cands = append(cands, *cur)
+	}
+	for i := len(w.suspects) - 1; i >= 0 && len(cands) < 6; i-- {
+		cands = append(cands, w.suspects[i])
+	}
+	w.suspects = nil
 	w.restart()
-	return false
+	var tried []string
+	for _, c := range cands {
+		tried = append(tried, c.b.Sig())
+		spin, log, pct, r0, r1 := w.isolate(c)
+		if !spin {
+			continue
+		}
+		sig := c.sig()
+		w.sh.mu.Lock()
+		w.sh.silent[sig+"/spin"] = "spin"
+		w.sh.mu.Unlock()
+		keepLog, keepActs, keepStart, keepSeed := w.log, w.acts, w.start, w.seed
+		w.log, w.acts, w.start, w.seed = log, c.b.Trace[:c.upto+1], c.b.Start, c.seed
+		w.violate(kindKey(sig, "spin-after-disconnect"), fmt.Sprintf("after the last line below the client closed the connection (sequence %s, alone on a fresh server): 3 s later the server still uses %d%% of a core with no client talking to it, resident set %d -> %d MiB in those 3 s",
+			c.b.Sig(), pct, r0/1024, r1/1024))
+		w.log, w.acts, w.start, w.seed = keepLog, keepActs, keepStart, keepSeed
+		return
+	}
+	if len(cands) == 0 {
+		w.violate(kindKey(curSig, "spin-after-disconnect"), fmt.Sprintf("the server keeps using CPU time with no client talking to it (resident set %d MiB)", rss/1024))
+		return
+	}
+	w.violate("unattributed/spin-after-disconnect", fmt.Sprintf("the server kept using CPU time after the clients of these sequences had gone, but none of them does it alone on a fresh server: %v", tried))
+}
+
+// isolate replays one suspect alone on a fresh server, closes the connection and measures.
+func (w *world) isolate(c suspect) (spin bool, log []string, pct, rss0, rss1 int64) {
+	nw, err := newWorld(w.r, w.sh, w.source, c.seed)
+	if err != nil {
+		return false, nil, 0, 0, 0
+	}
+	defer func() {
+		if nw.srv != nil {
+			nw.stop()
+		}
+	}()
+	nw.isolated = true
+	nw.rend = sess.NewRenderer(c.seed)
+	nw.rend.Heavy = w.heavy
+	nw.start = c.b.Start
+	nw.log = []string{"--- new connection, brought to " + c.b.Start + " by the harness"}
+	if nw.prelude("s1", c.b.Start) != nil {
+		return false, nil, 0, 0, 0
+	}
+	for k := 0; k <= c.upto && k < len(c.b.Trace); k++ {
+		ok, err := nw.step(&c.b.Trace[k])
+		if err != nil || nw.srv == nil {
+			return false, nw.log, 0, 0, 0
+		}
+		if !ok {
+			break
+		}
+	}
+	if cn := nw.conns["s1"]; cn != nil {
+		cn.Close()
+	}
+	if nw.srv == nil || !nw.srv.Alive() {
+		return false, nw.log, 0, 0, 0
+	}
+	pid := nw.srv.Pid()
+	time.Sleep(500 * time.Millisecond)
+	rss0 = nw.srv.RSSKiB()
+	busy, pct := busyFor3s(pid)
+	if !busy {
+		return false, nw.log, 0, 0, 0
+	}
+	return true, nw.log, pct, rss0, nw.srv.RSSKiB()
 }
 
 // ---- behaviours and the error-counter graph -------------------------------------
@@ -534,8 +653,9 @@ func replayBehaviours(r *ev.Run, sh *shared, bs []*sess.Behaviour, part, parts i
 		}
 		w.seed = behaviourSeed(seed, b.Sig())
 		w.rend = sess.NewRenderer(w.seed)
-		w.rend.Heavy = heavy
+		w.rend.Heavy, w.heavy = heavy, heavy
 		w.acts, w.start = nil, b.Start
+		w.curB, w.curK = b, 0
 		w.log = []string{"--- new connection, brought to " + b.Start + " by the harness"}
 		if err := w.prelude("s1", b.Start); err != nil {
 			if w.crashed("the prelude of a behaviour") {
@@ -544,8 +664,24 @@ func replayBehaviours(r *ev.Run, sh *shared, bs []*sess.Behaviour, part, parts i
 			r.Machinery("prelude: %v", err)
 			return
 		}
+		// did one of the clients that left before this sequence leave something running?
+		if len(w.suspects) > 0 {
+			if w.quickSpin() && w.spinning() {
+				w.spinDetected(nil, "")
+				if w.srv == nil {
+					return
+				}
+				if err := w.prelude("s1", b.Start); err != nil {
+					r.Machinery("prelude: %v", err)
+					return
+				}
+			} else {
+				w.suspects = w.suspects[len(w.suspects)-1:]
+			}
+		}
 		ok := true
 		for k := range b.Trace {
+			w.curK = k
 			if ok, err = w.step(&b.Trace[k]); err != nil {
 				r.Machinery("%v", err)
 				return
@@ -563,8 +699,13 @@ func replayBehaviours(r *ev.Run, sh *shared, bs []*sess.Behaviour, part, parts i
 				}
 			}
 		}
-		if c := w.conns["s1"]; c != nil {
+		if c := w.conns["s1"]; c != nil && !c.Dead() && w.srv != nil {
+			// the sequence is over and the client leaves; nothing may be left running for it
 			c.Close()
+			w.suspects = append(w.suspects, suspect{b: b, upto: w.curK, seed: w.seed})
+			if len(w.suspects) > 8 {
+				w.suspects = w.suspects[len(w.suspects)-8:]
+			}
 		}
 		r.Add("behaviours_replayed", 1)
 		n++
@@ -572,8 +713,8 @@ func replayBehaviours(r *ev.Run, sh *shared, bs []*sess.Behaviour, part, parts i
 			r.Sample(map[string]interface{}{"start": b.Start, "classes": b.Sig(), "concrete": append([]string{}, w.log...)})
 		}
 	}
-	if w.srv != nil && w.sinceSpin > 0 {
-		w.spinCheck("eof/unattributed", "one of the last streams that ended in the middle of a token, string or literal")
+	if w.srv != nil && len(w.suspects) > 0 && w.quickSpin() && w.spinning() {
+		w.spinDetected(nil, "")
 	}
 }
 
@@ -643,7 +784,7 @@ func run(r *ev.Run, tier, replay string) {
 	seed := ev.Seed()
 	sh := &shared{silent: map[string]string{}, instances: map[string]bool{}, classes: map[string]bool{}, perClass: map[string]int64{}, spinDone: map[string]int{}}
 	heavy := []int{1000000}
-	busyMax = 45 * time.Second
+	busyMax = 30 * time.Second
 	if tier == "thorough" {
 		heavy = []int{1000000, 2000000, 4000000}
 		busyMax = 150 * time.Second
@@ -671,14 +812,27 @@ func run(r *ev.Run, tier, replay string) {
 	}
 	// behaviours with a heavy first line are few and slow: they get servers of their own
 	var bs, hv []*sess.Behaviour
+	// the long sequences are sampled by the seed when there are too many to replay (the short ones are all replayed)
+	long := 0
 	for _, b := range lines.Behaviours {
-		if isHeavy(b) {
+		if len(b.Trace) >= 3 {
+			long++
+		}
+	}
+	const maxLong = 6000
+	pick := rand.New(rand.NewSource(seed * 104729))
+	for _, b := range lines.Behaviours {
+		switch {
+		case isHeavy(b):
 			hv = append(hv, b)
-		} else {
+		case len(b.Trace) < 3 || long <= maxLong || pick.Intn(long) < maxLong:
 			bs = append(bs, b)
 		}
 	}
 	parts := 8
+	if tier == "thorough" {
+		parts = 12
+	}
 	t0 := time.Now()
 	for p := 0; p < parts; p++ {
 		wg.Add(1)
@@ -719,6 +873,7 @@ func run(r *ev.Run, tier, replay string) {
 	r.Set("lines_sent_per_class", sh.perClass)
 	r.Set("class_sequences_enumerated_by_tlc", int64(len(lines.Behaviours)))
 	r.Set("class_sequences_replayed", r.Cov["behaviours_replayed"])
+	r.Set("class_sequences_selected_for_replay", int64(len(bs)+len(hv)))
 	r.Set("error_counter_graph_transitions", int64(len(errrun.Trans)))
 	r.Set("tlc_runs", map[string]interface{}{
 		"lines." + tier: map[string]interface{}{"distinct_states": lines.Res.Distinct, "generated": lines.Res.Generated, "wall_s": lines.Res.Wall.Seconds()},
@@ -735,7 +890,7 @@ func run(r *ev.Run, tier, replay string) {
 	r.Set("rule", "classes: TLC enumerates exhaustively every sequence of input classes of the configured length from each start phase (NotAuth, Auth, Selected) and the whole graph of the consecutive-error counter, with the acceptable results; bytes: each class occurrence is rendered as one of several concrete byte strings chosen by the seed (VERIF_SEED); evaluations = lines sent; non-trivial = a malformed / odd / cut-off line (not the valid commands in between); distinct = distinct (class, byte string). classes covered and instances tried are reported separately (input_classes_covered, phase_class_pairs_covered, malformed_instances_tried_distinct)")
 	r.Assumptions = []string{
 		"inside a class the bytes are sampled, not exhausted: the claim is exploration, not model checking",
-		"hang: no completion although the server keeps using CPU time for 45 s (quick) / 150 s (thorough); not answered: no completion and the server used no CPU time for 10 s (it waits for input); bloat: resident set +300 MiB during one line; spinning: more than 10% of a core in each of three consecutive seconds with no client connected to the worked connection",
+		"hang: no completion although the server keeps using CPU time for 30 s (quick) / 150 s (thorough); not answered: no completion and the server used no CPU time for 10 s (it waits for input); bloat: resident set +300 MiB during one line; spinning: on average more than 10% of a core over three seconds with no client connected to the worked connection",
 		"a heavy line (10^6 nesting, 1 MB atom) is only explored as the first line of a sequence, followed by one NOOP",
 		"raw TLS hello: the client gives up after sending it; whether the server answers BAD or closes is not judged",
 		"the servers run without TLS; login jail time 1 ms so that failed logins inside malformed lines do not delay later lines",
